@@ -1615,7 +1615,7 @@ def check(run: core.Run) -> int:
     # inserted at random places among the others: one process, interleaved sizes / strides / options.
     n_rand = 8000 if thorough else 400
     jobs = [(gen_scene(rng, thorough, crowded=(i % 8 == 5)), i % 2 == 1, False) for i in range(n_rand)]
-    blocks = [b for _ in range(150 if thorough else 14) for b in gen_session(rng)]
+    blocks = [b for _ in range(80 if thorough else 14) for b in gen_session(rng)]
     rng.shuffle(blocks)
     for pos, blk in sorted(zip((rng.randrange(n_rand + 1) for _ in blocks), blocks), key=lambda t: -t[0]):
         jobs[pos:pos] = [(sc, fc, True) for sc, fc in blk]
